@@ -35,7 +35,16 @@ pub fn gen_case(seed: u64, hist: u64, plan: &str) -> SchedCase {
         }
     }
     // creating the next chunk file fails once in a fifth of the histories: the buffered records must stay readable
-    let faults = if r.chance(1, 5) { vec![sched::FaultSpec { role: crate::trace::Role::Caller, kind: crate::trace::Sk::Create, nth: r.range(1, 8) as u32, action: "eio".into() }] } else { vec![] };
+    // ... and in a tenth one write of the worker fails (the worker ends; what it had not written stays pinned in the
+    // cache and must stay readable for as long as the store object lives)
+    let fw = r.below(10);
+    let faults = if fw < 2 {
+        vec![sched::FaultSpec { role: crate::trace::Role::Caller, kind: crate::trace::Sk::Create, nth: r.range(1, 8) as u32, action: "eio".into() }]
+    } else if fw == 2 {
+        vec![sched::FaultSpec { role: crate::trace::Role::Worker, kind: crate::trace::Sk::Write, nth: r.below(10) as u32, action: if r.chance(1, 2) { "eio".into() } else { format!("partial:{}", r.range(1, 20)) } }]
+    } else {
+        vec![]
+    };
     SchedCase { hist: h, sched, faults, reader_steps, gate_acks: r.chance(1, 2) }
 }
 
